@@ -58,7 +58,7 @@ Qed.
 
 (* ------------------------------------------------------------------ the loop *)
 Section Loop.
-Variables (n C num_iter : nat) (mm : cols F -> cols F) (tol brk : F) (n_extra : nat).
+Variables (n C num_iter : nat) (mm : cols F -> cols F) (tol : F -> bool) (brk : F) (n_extra : nat).
 
 Notation body := (lz_body A n C num_iter mm tol brk n_extra).
 Notation loop := (lz_loop A n C num_iter mm tol brk n_extra).
@@ -169,18 +169,38 @@ End Loop.
 
 (* ------------------------------------------------------------------ the result of lanczos_tridiag *)
 
+(* the state after the first step when the repaired source stops there *)
+Lemma init_stop_tm_inv n C num_iter mm init :
+  t_sym (lz_init_stop A n C num_iter mm init).2 /\ t_band (lz_init_stop A n C num_iter mm init).2.
+Proof.
+rewrite /lz_init_stop /=; split.
+  by apply: t_sym_set_diag => i j c; rewrite !tget_tzero.
+by apply: t_band_set => // i j c _; rewrite tget_tzero.
+Qed.
+
+(* [lz_stop g nvec init]: the repaired source ends the decomposition after the first step *)
+Definition lz_stop (g : lz_args F) (nvec : nat) (init : cols F) : bool :=
+  let n := g_n g in let C := prodn (g_batch g) * nvec in let num_iter := minn (g_max_iter g) n in
+  g_first_guard g && ((num_iter < 2) || ~~ has (fun b => altb A (g_brk g) (aabs A b)) (lz_beta0 A n C (g_mm g) init)).
+
+(* final state and last loop index *)
+Definition lz_final (g : lz_args F) (nvec : nat) (init : cols F) : lz_state F * nat :=
+  let n := g_n g in let C := prodn (g_batch g) * nvec in let num_iter := minn (g_max_iter g) n in
+  if lz_stop g nvec init then (lz_init_stop A n C num_iter (g_mm g) init, 0)
+  else lz_loop A n C num_iter (g_mm g) (lz_gt A g) (g_brk g) (g_extra g) num_iter.-1 1
+               (lz_init A n C num_iter (g_mm g) init).
+
 (* everything the successful path of lanczos_tridiag computes, exposed for the proofs *)
 Lemma lanczos_tridiag_ok (g : lz_args F) o :
   lanczos_tridiag A g = Ok o ->
   exists nvec init,
-    let n := g_n g in let B := prodn (g_batch g) in let C := B * nvec in
+    let n := g_n g in let B := prodn (g_batch g) in
     let num_iter := minn (g_max_iter g) n in
-    let r := lz_loop A n C num_iter (g_mm g) (g_tol g) (g_brk g) (g_extra g) num_iter.-1 1
-                     (lz_init A n C num_iter (g_mm g) init) in
+    let r := lz_final g nvec init in
     let m := r.2.+1 in
     let col_of o := (o %% B) * nvec + o %/ B in
     let lead := if nvec == 1 then [::] else [:: nvec] in
-    [/\ lz_start g = Ok (nvec, init), 1 < num_iter &
+    [/\ lz_start g = Ok (nvec, init), (if g_first_guard g then 0 else 1) < num_iter &
         o = MkOut m (lead ++ g_batch g ++ [:: n; m]) (lead ++ g_batch g ++ [:: m; m])
               (mkseq (fun o => mtab n m (fun x i => vget A (qget r.1.1 i (col_of o)) x)) (nvec * B))
               (mkseq (fun o => mtab m m (fun i j => tget A r.1.2 i j (col_of o))) (nvec * B))].
@@ -188,8 +208,50 @@ Proof.
 rewrite /lanczos_tridiag; case: (g_callable g) => //=.
 case Es: (lz_start g) => [[nvec init]|e] //.
 case: ltnP => // Hn.
-case El: (lz_loop _ _ _ _ _ _ _ _ _ _ _) => [[qm tm] kl] /= [<-].
-by exists nvec, init; rewrite /= El; split.
+rewrite -/(lz_stop g nvec init).
+case El: (if lz_stop g nvec init then _ else _) => [[qm tm] kl] /= [<-].
+exists nvec, init; rewrite /= /lz_final El; split=> //.
+by case: (g_first_guard g) Hn.
+Qed.
+
+(* the two ways the final state comes about *)
+Lemma lz_final_cases (g : lz_args F) nvec init :
+  let n := g_n g in let C := prodn (g_batch g) * nvec in let num_iter := minn (g_max_iter g) n in
+  (if g_first_guard g then 0 else 1) < num_iter ->
+  (lz_stop g nvec init /\ lz_final g nvec init = (lz_init_stop A n C num_iter (g_mm g) init, 0))
+  \/ [/\ ~~ lz_stop g nvec init, 1 < num_iter &
+         lz_final g nvec init = lz_loop A n C num_iter (g_mm g) (lz_gt A g) (g_brk g) (g_extra g) num_iter.-1 1
+                                        (lz_init A n C num_iter (g_mm g) init)].
+Proof.
+move=> /= Hn; rewrite /lz_final; case Est: (lz_stop g nvec init); [by left | right; split=> //].
+move: Est Hn; rewrite /lz_stop; case: (g_first_guard g) => //=.
+by move=> /negbT; rewrite negb_or -leqNgt => /andP[].
+Qed.
+
+Lemma final_tm_inv_gen (g : lz_args F) nvec init :
+  (if g_first_guard g then 0 else 1) < minn (g_max_iter g) (g_n g) ->
+  t_sym (lz_final g nvec init).1.2 /\ t_band (lz_final g nvec init).1.2.
+Proof.
+move=> Hn; case: (lz_final_cases nvec init Hn) => [[_ ->]|[_ Hn1 ->]] /=.
+  exact: init_stop_tm_inv.
+set num_iter := minn _ _ in Hn1 *.
+have f0 : 0 < num_iter.-1 by lia.
+have Hk : 1 + num_iter.-1 = num_iter by lia.
+by apply: loop_tm_inv => //; exact: init_tm_inv.
+Qed.
+
+Lemma final_range_gen (g : lz_args F) nvec init :
+  (if g_first_guard g then 0 else 1) < minn (g_max_iter g) (g_n g) ->
+  (if g_first_guard g then 0 else 1) <= (lz_final g nvec init).2 < minn (g_max_iter g) (g_n g).
+Proof.
+move=> Hn; case: (lz_final_cases nvec init Hn) => [[Hst ->]|[_ Hn1 ->]] /=.
+  by move: Hst Hn; rewrite /lz_stop; case: (g_first_guard g) => //= _ ->.
+set num_iter := minn _ _ in Hn1 *.
+have f0 : 0 < num_iter.-1 by lia.
+have Hk : 1 + num_iter.-1 = num_iter by lia.
+have /andP[H1 H2] := @loop_range (g_n g) (prodn (g_batch g) * nvec) num_iter (g_mm g) (lz_gt A g) (g_brk g) (g_extra g)
+   num_iter.-1 1 (lz_init A (g_n g) (prodn (g_batch g) * nvec) num_iter (g_mm g) init) f0 Hk (ltn0Sn 0).
+by rewrite H2 andbT; case: (g_first_guard g).
 Qed.
 
 (* T: symmetric, tridiagonal, m x m -- for every input, over every arithmetic (floats included) *)
@@ -203,12 +265,8 @@ Theorem lanczos_T_symmetric_tridiagonal_gen (g : lz_args F) o :
 Proof.
 move=> /lanczos_tridiag_ok [nvec [init /= [_ Hn ->]]] idx /=; rewrite size_mkseq => Hidx.
 rewrite nth_mkseq //.
-set num_iter := minn _ _ in Hn *.
-set r := lz_loop _ _ _ _ _ _ _ _ _ _ _.
-have f0 : 0 < num_iter.-1 by lia.
-have Hk : 1 + num_iter.-1 = num_iter by lia.
-have [Hs Hb] : t_sym r.1.2 /\ t_band r.1.2.
-  by apply: loop_tm_inv => //; exact: init_tm_inv.
+have [Hs Hb] := final_tm_inv_gen nvec init Hn.
+set r := lz_final g nvec init in Hs Hb *.
 set c := _ + _; set m := r.2.+1.
 split.
 - by rewrite size_mkseq.
@@ -221,13 +279,14 @@ split.
   by rewrite mget_mtab_out.
 Qed.
 
-(* trimming: the shapes, the number of returned matrices and the range of the final iteration count *)
+(* trimming: the shapes, the number of returned matrices and the range of the final iteration count
+   (at least 2 Lanczos vectors on the pinned source, at least 1 on the repaired one) *)
 Theorem lanczos_trim_shapes_gen (g : lz_args F) o :
   lanczos_tridiag A g = Ok o ->
   exists nvec init, lz_start g = Ok (nvec, init) /\
     let n := g_n g in let m := o_m o in
     let lead := if nvec == 1 then [::] else [:: nvec] in
-    [/\ 2 <= m <= minn (g_max_iter g) n,
+    [/\ (if g_first_guard g then 1 else 2) <= m <= minn (g_max_iter g) n,
         o_qshape o = lead ++ g_batch g ++ [:: n; m] /\ o_tshape o = lead ++ g_batch g ++ [:: m; m],
         size (o_Q o) = nvec * prodn (g_batch g) /\ size (o_T o) = nvec * prodn (g_batch g),
         (forall idx, idx < size (o_Q o) -> let Q := nth [::] (o_Q o) idx in
@@ -236,12 +295,9 @@ Theorem lanczos_trim_shapes_gen (g : lz_args F) o :
              size T = m /\ forall i, i < m -> size (nth [::] T i) = m)].
 Proof.
 move=> /lanczos_tridiag_ok [nvec [init /= [Hs Hn ->]]]; exists nvec, init; split=> //=.
-set num_iter := minn _ _ in Hn *.
-have f0 : 0 < num_iter.-1 by lia.
-have Hk : 1 + num_iter.-1 = num_iter by lia.
-have /andP[H1 H2] := @loop_range (g_n g) (prodn (g_batch g) * nvec) num_iter (g_mm g) (g_tol g) (g_brk g) (g_extra g) num_iter.-1 1 (lz_init A (g_n g) (prodn (g_batch g) * nvec) num_iter (g_mm g) init) f0 Hk (ltn0Sn 0).
+have /andP[H1 H2] := final_range_gen nvec init Hn.
 split=> //.
-- by apply/andP; split; lia.
+- by apply/andP; split=> //; case: (g_first_guard g) H1.
 - by rewrite !size_mkseq.
 - rewrite size_mkseq => idx hidx; rewrite nth_mkseq // size_mkseq; split=> // i hi.
   by rewrite nth_mkseq // size_mkseq.
@@ -249,7 +305,7 @@ split=> //.
   by rewrite nth_mkseq // size_mkseq.
 Qed.
 
-(* error paths: the guards of lines 23, 36-51 and the IndexError for num_iter < 2 *)
+(* error paths: the guards of lines 23, 36-51 and the IndexError for num_iter < 2 (pinned) / < 1 (repaired) *)
 Theorem lanczos_guards_gen (g : lz_args F) :
   [/\ ~~ g_callable g -> lanczos_tridiag A g = Err ErrNotCallable,
       (forall iv, g_callable g -> g_init g = Some iv -> g_debug g -> ~~ i_dtype_ok iv ->
@@ -258,7 +314,8 @@ Theorem lanczos_guards_gen (g : lz_args F) :
          lanczos_tridiag A g = Err ErrBatchShape),
       (forall iv, g_callable g -> g_init g = Some iv -> g_debug g -> i_dtype_ok iv -> g_batch g = i_batch iv ->
          ~~ i_onedim iv -> g_n g != i_n iv -> lanczos_tridiag A g = Err ErrMatrixShape) &
-      (forall nvec init, g_callable g -> lz_start g = Ok (nvec, init) -> minn (g_max_iter g) (g_n g) < 2 ->
+      (forall nvec init, g_callable g -> lz_start g = Ok (nvec, init) ->
+         minn (g_max_iter g) (g_n g) < (if g_first_guard g then 1 else 2) ->
          lanczos_tridiag A g = Err ErrIndex)].
 Proof.
 rewrite /lanczos_tridiag /lz_start; split.
@@ -267,6 +324,20 @@ rewrite /lanczos_tridiag /lz_start; split.
 - by move=> iv -> -> -> -> /negbTE-> /=.
 - by move=> iv -> -> -> -> -> /=; rewrite eqxx /= => /negbTE-> /negbTE->.
 - by move=> nvec init -> /= -> ->.
+Qed.
+
+(* the repaired source serves a budget of one iteration and start vectors that span an invariant subspace:
+   it returns after the first step with a single Lanczos vector (Q = q_0, T = [alpha_0]) *)
+Theorem lanczos_first_step_stop_gen (g : lz_args F) nvec init :
+  g_callable g -> lz_start g = Ok (nvec, init) -> g_first_guard g -> 0 < minn (g_max_iter g) (g_n g) ->
+  (minn (g_max_iter g) (g_n g) < 2)
+  || ~~ has (fun b => altb A (g_brk g) (aabs A b))
+            (lz_beta0 A (g_n g) (prodn (g_batch g) * nvec) (g_mm g) init) ->
+  exists2 o, lanczos_tridiag A g = Ok o & o_m o = 1.
+Proof.
+rewrite /lanczos_tridiag => -> -> Hg Hn Hst /=.
+rewrite Hg ltnNge Hn /= Hst /=.
+by eexists; first by reflexivity.
 Qed.
 
 (* a 1-D init_vecs (which root_inv_decomposition lets through): IndexError, from init_vecs.size(-2) in debug mode and
